@@ -207,6 +207,7 @@ impl<T: Entry> RowEchelonVecMatrix<T> {
     //@ rw R16 /-> Self/-> (re: Self)/
     //@ rw R12 /let mut row = 0;/let mut row: usize = 0;/
     //@ rw R12 /let mut nr_swaps = 0;/let mut nr_swaps: usize = 0;/
+    //@ rw R17 /for col in 0\.\.m\.nr_columns\(\)$/for col in it: 0..m.nr_columns()/
     pub fn new(m: &VecMatrix<T>) -> (re: Self)
         requires m.inv()
         // C18 "no shape makes these routines panic": every index / assertion in the body is discharged for ALL shapes, and
@@ -224,8 +225,11 @@ impl<T: Entry> RowEchelonVecMatrix<T> {
         let mut nr_swaps: usize = 0;
         let mut cols = vec![m.nr_rows(); m.nr_rows()];
 
-        for col in 0..m.nr_columns()
+        for col in it: 0..m.nr_columns()
             invariant
+                // the elimination sweeps ALL columns (it may stop early only through the explicit `rows exhausted` exit below):
+                // a pivot in a late column of a wide matrix must not be skipped
+                it.seq().len() == m.nr_cols,
                 m.inv(), u.inv(), s.inv(),
                 u.nr_rows == m.nr_rows, u.nr_cols == m.nr_cols,
                 s.nr_rows == m.nr_rows, s.nr_cols == m.nr_rows,
